@@ -16,6 +16,14 @@ class RTask(Task):
         steps = 0
         for i in range(3):      # a few traceable lines inside the body
             steps += i
+        if self.mode == "gate":
+            # wait until the harness lets the body finish
+            import time
+
+            for _ in range(600):
+                if (Path.cwd() / "go").exists():
+                    break
+                time.sleep(0.05)
         if self.mode == "raise":
             raise RuntimeError("task failed")
         if self.mode == "exit3":
